@@ -63,10 +63,24 @@ Qed.
 
 (* every case the harness counts as inside F11 is covered by the theorem *)
 Theorem fragment_flag c : in_F c = true ->
+  run_raises (case_cmodel c) (case_world c) (c_T c) (c_pat c) (c_dom c) = false /\
   forall o, In o (run (case_cmodel c) (case_world c) (c_T c) (c_pat c) (c_dom c)) <->
             In o (spec_run (sub (case_cmodel c)) (case_world c) (c_T c) (c_pat c) (c_dom c)).
 Proof.
   unfold in_F. intros H. apply andb_true_iff in H. destruct H as [H H0]. apply andb_true_iff in H. destruct H as [H Hty].
   apply andb_true_iff in H. destruct H as [HF Htr].
+  split; [apply (no_error _ (case_objcls c)); apply (proj1 (proj2 (fok_mono _ _))); exact HF|].
   apply (match_run_exact (case_cmodel c) (case_objcls c)); auto using sub_trans_of_b, typed_of_b.
+Qed.
+
+(* ... and every case inside the relaxed fragment (finding C11-e allowed) is answered as the relaxed reading says *)
+Theorem fragment_flag_lax c : in_Flax c = true ->
+  run_raises (case_cmodel c) (case_world c) (c_T c) (c_pat c) (c_dom c) = false /\
+  forall o, In o (run (case_cmodel c) (case_world c) (c_T c) (c_pat c) (c_dom c)) <->
+            In o (lax_run (case_cmodel c) (case_world c) (c_T c) (c_pat c) (c_dom c)).
+Proof.
+  unfold in_Flax. intros H. apply andb_true_iff in H. destruct H as [H H0]. apply andb_true_iff in H. destruct H as [H Hty].
+  apply andb_true_iff in H. destruct H as [HF Htr].
+  split; [apply (no_error _ (case_objcls c)); exact HF|].
+  apply (match_run_lax (case_cmodel c) (case_objcls c)); auto using sub_trans_of_b, typed_of_b.
 Qed.
